@@ -10,6 +10,11 @@ CLAIMED = {
     "C05": ("Every obligation (bitwise/table CRC == independent polynomial-division reference, front-end inversion/mask/byte order, check<=>computed value, "
             "burst and weight<=3 detection) is proved by the solver for ALL message contents at every length in the bound; lengths beyond the bound are not claimed.", "6/C05"),
 }
+CLAIMED["C06"] = ("For each of the 7 block codes: systematic encoder, generate == ETSI matrix product, check(w) <=> codeword membership for a fully symbolic received word "
+                  "(all 2^n words in one query), minimum distance by a cardinality constraint, single-error repair at a symbolic position, (16,11,4) double errors "
+                  "reported uncorrectable. Complete for the property's quantifier (no bound left out).", "6/C06")
+CLAIMED["C02"] = ("All 2^96 messages are covered in every run (message bits symbolic). quick: no error, all 196 single errors (split and symbolic position), a seeded "
+                  "subset (~3,000) of the 19,110 double errors; thorough: all 19,306 patterns of weight <= 2.", "6/C02")
 NOT_YET = {}
 props = [json.loads(l) for l in open(os.path.join(V, "properties.jsonl"))]
 checks = []
